@@ -34,6 +34,24 @@ CLAIMED = {
         text="Seeded search over diagram triples up to 60 (quick) / 300 (thorough) points; ten laws from the statement, "
              "bottleneck clauses exact or rel 1e-12, Wasserstein clauses with the documented tolerance. Exploration.",
         note="Laws are necessary conditions; optimality itself is C01's oracle. Wasserstein tolerance is 1e-6*(M+N)*max|coord|."),
+    "C05": dict(
+        design="4/C05", engine="rng",
+        technique="deterministic simulation: the global NumPy RNG consumed by the mGH upper-bound heuristic is replaced "
+                  "by a scheduler-owned generator (uniform/degenerate/sticky/real-seeded draw schedules); bounds checked "
+                  "against an exact branch-and-bound mGH reference",
+        text="Seeded search over (connected graph pair x RNG draw schedule x mapping_sample_size_order); lower <= exact "
+             "<= upper, multiples of 1/2, isomorphic => 0, with exact 2*mGH by branch-and-bound over all maps (validated "
+             "against flat enumeration for <= 4 vertices). Exploration.",
+        note="Exact reference practical to about 9 vertices; larger graphs only get the size-free clauses."),
+    "C17": dict(
+        design="4/C17", engine="rng",
+        technique="deterministic simulation: scheduler-owned RNG stream shared across all pairs of a collection call, "
+                  "scheduler-chosen warnings filter, representation/relabelling swarm; exact mGH reference incl. "
+                  "largest-component fallback",
+        text="Seeded search over representations (list/dense/CSR/CSC/COO x fill x dtype), relabellings, collections of "
+             "2..5 graphs and disconnected graphs under every RNG mode: identical lower bounds for identical labellings, "
+             "valid brackets everywhere, symmetric zero-diagonal matrices, warning + largest component. Exploration.",
+        note="Ties among largest components accept any of them; bool dtype only for lists/dense arrays."),
 }
 
 NOT_APPLICABLE = {
